@@ -1,5 +1,6 @@
 import Jap.Core.Sources
 import Jap.Lemmas.SourcesTop
+import Jap.Lemmas.SourcesCall
 import Jap.Gen.SourcesOrder
 /-!
 # C04 — Sources override each other in the documented order, left to right
@@ -28,6 +29,14 @@ and the default config files: `C04_order_envcfg_append_counterexample` (open fin
 What is proved is the full statement under exactly that guard, per key: `envPlain p src.env a.dest`
 (the environment makes only plain assignments to the key), which holds at every non-config key as soon as
 the env config has no `key+` entry (`C04_guard_of_noAppend`), and always when env parsing is off.
+
+Second part (the arguments of the call): `defaults=`, `env=`, `parse_env(mapping)` are inputs of the pipeline
+(`Call`, `parseArgsC` …): `C04_order_call_partial` (guard only when both layers are read), `C04_defaults_false`,
+`C04_env_mapping_only` / `_fold` / `_empty`; the order of default config files is computed by the model
+(`defaultConfigFiles` on an abstract match relation): `C04_files_listed_order`, `C04_files_twice`, `C04_files_value`;
+the environment layer assigns leaf by leaf: `C04_env_var_step_frame`, `C04_env_var_keeps_siblings`.
+`parse_string(defaults=False)` without `env=True` merges nothing at all (`C04_string_nodefaults`, witness
+`C04_string_nodefaults_counterexample`, open finding C04-string-nodefaults).
 -/
 namespace Jap.Props.C04
 open Jap.NS Jap.Src Jap.Gen
@@ -222,6 +231,162 @@ theorem C04_methods_cfg_option (p : Parser) (files : List (Option KV)) (env : Li
   rw [getK_setK_dest hp ha hb, if_neg hne]
   rfl
 
+/-! ## the arguments of the call: `defaults=`, `env=`, `parse_env(mapping)` -/
+
+/-- the default call is the pipeline of the first part -/
+theorem C04_call_default (p : Parser) (src : Sources) : parseArgsC p src {} = parseArgs p src := rfl
+
+/-- `C04_order` for every call: the sources that the call reads, in the documented order; the guard is needed only when
+    both the defaults layer and the environment are read -/
+theorem C04_order_call_partial (p : Parser) (src : Sources) (c : Call) (hp : wfParser p = true) (hs : srcWfC p src c = true)
+    (a : Arg) (ha : a ∈ p.args)
+    (hg : c.defaults = true → envRead p c.envArg = true → envPlain p (environOf src c) a.dest = true) :
+    getK a.dest (parseArgsC p src c) = getK a.dest (refFold (asgAllC p src c) []) := by
+  have hs' := hs
+  simp only [srcWfC, Bool.and_eq_true, List.all_eq_true] at hs'
+  obtain ⟨h1, h2⟩ := stage_baseC hp ha src c hs hg
+  obtain ⟨h3, _⟩ := stage_argv hp ha src.argv _ hs'.2 h2
+  have hkeys : ∀ s ∈ asgAllC p src c, ∃ b ∈ p.args, s.key = b.dest := by
+    intro s hm
+    rcases List.mem_append.mp hm with hm | hm
+    · exact asgBaseC_keys hp src c hs s hm
+    · exact asgArgv_keys hp src.argv hs'.2 s hm
+  rw [ref_eval hp ha _ hkeys, getK_nil]
+  simp only [parseArgsC, asgAllC, evalKey_append]
+  rw [h3, h1]
+
+/-- `defaults=False`: neither the defaults in the source code nor any default config file contributes — the result is the
+    fold of the environment (if read) and the command line alone, WITHOUT any guard … -/
+theorem C04_defaults_false (p : Parser) (src : Sources) (c : Call) (hp : wfParser p = true) (hs : srcWfC p src c = true)
+    (a : Arg) (ha : a ∈ p.args) (hd : c.defaults = false) :
+    getK a.dest (parseArgsC p src c) =
+      getK a.dest (refFold ((if envRead p c.envArg then asgEnvCfg p (environOf src c) ++ asgEnvVars p (environOf src c) else [])
+        ++ asgArgv p src.argv) []) := by
+  have := C04_order_call_partial p src c hp hs a ha (fun h => by rw [hd] at h; exact Bool.noConfusion h)
+  simpa only [asgAllC, asgBaseC, hd, Bool.false_eq_true, if_false, List.nil_append] using this
+
+/-- … and it does not depend on the default config files at all -/
+theorem C04_defaults_false_ignores_files (p : Parser) (files files' : List (Option KV)) (env : List (String × V))
+    (argv : List Item) (c : Call) (hd : c.defaults = false) :
+    parseArgsC p ⟨files, env, argv⟩ c = parseArgsC p ⟨files', env, argv⟩ c := by
+  simp only [parseArgsC, defaultsAndEnvironC, baseCfg, hd, Bool.false_eq_true, if_false, environOf]
+
+/-- `parse_env(mapping)`: the process environment plays no role, whatever the mapping — the empty one included -/
+theorem C04_env_mapping_only (p : Parser) (files : List (Option KV)) (osEnv osEnv' : List (String × V)) (argv : List Item)
+    (c : Call) (m : List (String × V)) :
+    parseEnvC p ⟨files, osEnv, argv⟩ { c with environ := some m } = parseEnvC p ⟨files, osEnv', argv⟩ { c with environ := some m } := rfl
+
+/-- … exactly the given mapping is folded, after the defaults layer -/
+theorem C04_env_mapping_fold (p : Parser) (src : Sources) (c : Call) (m : List (String × V)) (hp : wfParser p = true)
+    (hs : srcWfC p src { c with environ := some m } = true) (a : Arg) (ha : a ∈ p.args)
+    (hg : c.defaults = true → envPlain p m a.dest = true) :
+    getK a.dest (parseEnvC p src { c with environ := some m }) =
+      getK a.dest (refFold ((if c.defaults then asgDefaults p ++ asgFiles p src.files else []) ++ (asgEnvCfg p m ++ asgEnvVars p m)) []) := by
+  have hs2 : srcWfC p src { c with environ := some m, envArg := some true } = true := hs
+  obtain ⟨h1, _⟩ := stage_baseC hp ha src { c with environ := some m, envArg := some true } hs2 (fun hd _ => hg hd)
+  have hkeys := asgBaseC_keys hp src { c with environ := some m, envArg := some true } hs2
+  rw [show parseEnvC p src { c with environ := some m } = defaultsAndEnvironC p src { c with environ := some m, envArg := some true } from rfl, h1]
+  have : asgBaseC p src { c with environ := some m, envArg := some true }
+      = (if c.defaults then asgDefaults p ++ asgFiles p src.files else []) ++ (asgEnvCfg p m ++ asgEnvVars p m) := rfl
+  rw [this] at hkeys ⊢
+  rw [ref_eval hp ha _ hkeys, getK_nil]
+
+/-- … and the EMPTY mapping contributes nothing: the result is the defaults layer (no fall-back to `os.environ`) -/
+theorem C04_env_mapping_empty (p : Parser) (src : Sources) (c : Call) (hp : wfParser p = true)
+    (hf : ∀ f ∈ src.files, fileOk p f = true) (a : Arg) (ha : a ∈ p.args) :
+    getK a.dest (parseEnvC p src { c with environ := some [] }) = getK a.dest (baseCfg p src.files c.defaults) := by
+  obtain ⟨_, h2⟩ := stage_baseCfg hp ha src.files hf c.defaults
+  have : parseEnvC p src { c with environ := some [] } = mergeConfig p (loadEnv p []) (baseCfg p src.files c.defaults) := rfl
+  rw [this, loadEnv_nil, (stage_envMerge hp ha inv_nil h2).1, getK_nil]
+  rfl
+
+/-- `parse_string(..., defaults=False)` without `env=True` returns the loaded content as it is: no source is merged and
+    its `key+` entries stay unapplied (open finding C04-string-nodefaults) -/
+theorem C04_string_nodefaults (p : Parser) (src : Sources) (c : Call) (t : KV) (hd : c.defaults = false)
+    (he : c.envArg ≠ some true) : parseStringC p src c t = expand p t := by
+  have : (c.envArg == some true) = false := by
+    cases h : c.envArg with
+    | none => rfl
+    | some b => cases b with
+      | true => exact absurd h he
+      | false => rfl
+  simp [parseStringC, hd, this]
+
+/-! ## which default config files, in which order (`_get_default_config_files`) -/
+
+/-- entries in the LISTED order (`++` of the blocks); every block is the SORTED list of exactly the matches of its entry;
+    the assignments of the default config files are the blocks' files one after the other — nothing is deduplicated -/
+theorem C04_files_listed_order (p : Parser) (le : String → String → Bool) (glob : String → List String)
+    (content : String → Option KV) (ps qs : List String)
+    (htot : ∀ a b, le a b = true ∨ le b a = true) (htr : ∀ a b c, le a b = true → le b c = true → le a c = true) :
+    defaultConfigFiles le glob (ps ++ qs) = defaultConfigFiles le glob ps ++ defaultConfigFiles le glob qs
+    ∧ (∀ pat, defaultConfigFiles le glob [pat] = sortBy le (glob pat)
+        ∧ (sortBy le (glob pat)).Perm (glob pat) ∧ (sortBy le (glob pat)).Pairwise (fun a b => le a b = true))
+    ∧ asgFiles p (resolveFiles le glob content ps)
+        = ps.flatMap (fun pat => (sortBy le (glob pat)).flatMap (fun f => fileAsg p (content f))) := by
+  refine ⟨by simp [defaultConfigFiles], fun pat => ⟨by simp [defaultConfigFiles], sortBy_perm le _, sortBy_sorted le htot htr _⟩, ?_⟩
+  simp only [asgFiles_eq, resolveFiles, defaultConfigFiles, List.flatMap_map]
+  induction ps with
+  | nil => rfl
+  | cons pat r ih => simp only [List.flatMap_cons, List.flatMap_append, ih]
+
+/-- a file reached by two entries is applied at BOTH positions: it occurs as often as entries match it -/
+theorem C04_files_twice (le : String → String → Bool) (glob : String → List String) (ps : List String) (f : String) :
+    (defaultConfigFiles le glob ps).count f = (ps.map (fun pat => (glob pat).count f)).sum := by
+  induction ps with
+  | nil => rfl
+  | cons pat r ih =>
+    simp only [defaultConfigFiles, List.flatMap_cons, List.count_append, List.map_cons, List.sum_cons] at ih ⊢
+    rw [ih, (sortBy_perm le (glob pat)).count_eq]
+
+/-- the defaults layer is the fold of the action defaults and then of those files in that order -/
+theorem C04_files_value (p : Parser) (le : String → String → Bool) (glob : String → List String)
+    (content : String → Option KV) (ps : List String) (hp : wfParser p = true)
+    (hf : ∀ f ∈ resolveFiles le glob content ps, fileOk p f = true) (a : Arg) (ha : a ∈ p.args) :
+    getK a.dest (getDefaults p (resolveFiles le glob content ps))
+      = valueAfter (asgDefaults p ++ asgFiles p (resolveFiles le glob content ps)) a.dest :=
+  (stage_getDefaults hp ha _ hf).1
+
+/-! ## the environment layer, leaf by leaf -/
+
+/-- an individual variable is ASSIGNED AT ITS LEAF of the namespace built from the env config: every other destination —
+    siblings below the same branch included — keeps its value -/
+theorem C04_env_var_step_frame (p : Parser) (env : List (String × V)) (hp : wfParser p = true) (c : KV)
+    (a b : Arg) (ha : a ∈ p.args) (hb : b ∈ p.args) (hne : b.dest ≠ a.dest) :
+    getK a.dest (envVarStep p env c b) = getK a.dest c := by
+  unfold envVarStep
+  split
+  · rfl
+  · split
+    · rw [getK_setK_dest hp ha hb, if_neg hne]
+    · rfl
+
+/-- whole layer: a destination without a variable of its own holds, after `_load_env_vars`, exactly what the env config gave it -/
+theorem C04_env_var_keeps_siblings (p : Parser) (env : List (String × V)) (hp : wfParser p = true) (he : envWf p env = true)
+    (a : Arg) (ha : a ∈ p.args) (hnone : a.kind = .config ∨ envLookup (envName p a) env = .none) :
+    getK a.dest (loadEnv p env) = valueAfter (asgEnvCfg p env) a.dest := by
+  rw [(stage_loadEnv hp ha env he).1, evalKey_append]
+  apply evalKey_no_key
+  intro s hs
+  simp only [asgEnvVars, List.mem_flatMap] at hs
+  obtain ⟨b, hb, hs⟩ := hs
+  by_cases hbk : b.kind = .config
+  · simp [hbk] at hs
+  · simp only [hbk, if_false] at hs
+    cases hl : envLookup (envName p b) env with
+    | none => rw [hl] at hs; simp at hs
+    | some v =>
+      rw [hl] at hs
+      simp only [List.mem_singleton] at hs
+      rw [hs]
+      simp only [Assign.key]
+      intro e
+      have hab : b = a := dest_inj hp hb ha e
+      subst hab
+      rcases hnone with h | h
+      · exact hbk h
+      · rw [h] at hl; simp at hl
+
 /-! ## non-vacuity: the Appendix Q scenario of DESIGN.md is inside the domain -/
 
 private def kq (s : String) : SKey := ⟨false, s⟩
@@ -260,6 +425,14 @@ theorem C04_order_envcfg_append_counterexample :
     ∧ getK [kq "g", kq "l"] (refFold (asgAll Pq Senv) []) = some (.lst [.atom 0, .atom 7])
     ∧ envPlain Pq Senv.env [kq "g", kq "l"] = false := ⟨by decide, by decide, rfl, rfl, by decide⟩
 
+/-- `parse_string('{"g": {"l+": [7]}}', defaults=False)`: the entry is left unapplied and the result is rejected, whereas
+    `parse_object` of the same content with the same arguments appends to the empty list -/
+theorem C04_string_nodefaults_counterexample :
+    valid Pq (parseStringC Pq ⟨[], [], []⟩ { defaults := false } [(kq "g", .dct [(kq "l+", .lst [.atom 7])])]) = false
+    ∧ valid Pq (parseObjectC Pq ⟨[], [], []⟩ { defaults := false } [(kq "g", .dct [(kq "l+", .lst [.atom 7])])]) = true
+    ∧ getK [kq "g", kq "l"] (parseObjectC Pq ⟨[], [], []⟩ { defaults := false } [(kq "g", .dct [(kq "l+", .lst [.atom 7])])])
+        = some (.lst [.atom 7]) := ⟨by decide, by decide, rfl⟩
+
 /-- the same content in a default config file is inside the guard and appends to the default -/
 theorem C04_same_content_as_default_config_file :
     getK [kq "g", kq "l"] (parseArgs Pq ⟨[some [(kq "g", .dct [(kq "l+", .lst [.atom 7])])]], [], []⟩)
@@ -272,10 +445,13 @@ theorem C04_same_content_as_default_config_file :
     the three loops of `_load_env_vars` starting from an empty namespace, the order of default config files
     (patterns as listed, matches sorted, applied in that order), `apply_appends` and `ActionTypeHint.__call__` reading
     the RUNNING value (`cfg=cfg`), the append / NestedArg branches of `adapt_typehints`, `Namespace.update`,
-    `get_env_var`, the `default_env` setter: exactly what `Core/Sources.lean` was transcribed from.  An edit to
+    `get_env_var`, the `default_env` setter, how every parse method calls `_parse_defaults_and_environ` (and under which
+    condition: `parse_string` only `if defaults or env`; `parse_env` with `env=True, environ=env`; `if environ is None`):
+    exactly what `Core/Sources.lean` was transcribed from.  An edit to
     any of these breaks this theorem, i.e. the tie between the model and the code. -/
 theorem C04_transcription_pin :
     SourcesOrder.mergeCalls = ["_parse_defaults_and_environ: merge_config(cfg_env, cfg)", "parse_args: merge_config(namespace, cfg)", "parse_object: merge_config(cfg_base, cfg)", "parse_object: merge_config(cfg_apply, cfg)", "parse_string: merge_config(cfg, cfg_base)", "get_defaults: merge_config(cfg_file, cfg)", "apply_config: merge_config(cfg_file, cfg)"] ∧
+    SourcesOrder.baseCalls = ["parse_args: _parse_defaults_and_environ(defaults, env)", "parse_object: _parse_defaults_and_environ(defaults, env)", "parse_env: _parse_defaults_and_environ(defaults, env=True, environ=env)", "parse_string: _parse_defaults_and_environ(defaults, env) if defaults or env"] ∧
     SourcesOrder.applyConfigTail = ["cfg_merged = parser.merge_config(cfg_file, cfg)", "cfg.__dict__.update(cfg_merged.__dict__)", "if not isinstance(cfg.get(dest), list)", "cfg[dest] = []", "cfg[dest].append(cfg_path)"] ∧
     SourcesOrder.mergeConfigBody = ["cfg_from = cfg_from.clone()", "cfg_to = cfg_to.clone()", "ActionTypeHint.discard_init_args_on_class_path_change(self, cfg_to, cfg_from)", "cfg_to.update(cfg_from)", "ActionTypeHint.apply_appends(self, cfg_to)", "return cfg_to"] ∧
     SourcesOrder.defaultsAndEnvironBody = ["cfg = Namespace()", "if defaults", "cfg = self.get_defaults(skip_validation=True)", "if env or (env is None and self._default_env)", "if environ is None", "environ = os.environ", "cfg_env = self._load_env_vars(env=environ, defaults=defaults)", "cfg = self.merge_config(cfg_env, cfg)", "return cfg"] ∧
@@ -291,6 +467,6 @@ theorem C04_transcription_pin :
     SourcesOrder.envVarBody = ["if isinstance(parser_or_formatter, DefaultHelpFormatter)", "env_var = ''", "if isinstance(parser.env_prefix, str)", "env_var = parser.env_prefix.replace('-', '_') + '_'", "if action", "env_var += action.dest", "env_var = env_var.replace('.', '__').upper()"] ∧
     SourcesOrder.defaultEnvSetter = ["os_default_env = os.getenv('JSONARGPARSE_DEFAULT_ENV', '').lower()", "if os_default_env in {'true', 'false'}", "self._default_env = os_default_env == 'true'", "else", "if isinstance(default_env, bool)"] ∧
     SourcesOrder.loadEnvStart = "cfg = Namespace()" := by
-  exact ⟨rfl, rfl, rfl, rfl, rfl, rfl, rfl, rfl, rfl, rfl, rfl, rfl, rfl, rfl, rfl, rfl⟩
+  exact ⟨rfl, rfl, rfl, rfl, rfl, rfl, rfl, rfl, rfl, rfl, rfl, rfl, rfl, rfl, rfl, rfl, rfl⟩
 
 end Jap.Props.C04
